@@ -18,14 +18,21 @@
  *     follows, the word runs to the end of the input; an unquoted word ends at the next whitespace.
  *
  * Inputs: every string of length <= VERIF_MAXLEN (default 7) over {a, b, space, ':', ''', '"', '\'}.
- * The string lives in a heap block of EXACTLY length+1 bytes, so that any read past the terminator is
- * an out-of-bounds read for cbmc's pointer checks.
+ * The terminator of the string is the last byte of its heap block, so that any read past the terminator
+ * is an out-of-bounds read for cbmc's pointer checks.
  */
 #ifndef VERIF_C12_REF_H
 #define VERIF_C12_REF_H
 
 #ifndef VERIF_MAXLEN
-# define VERIF_MAXLEN 7
+# ifdef VERIF_THOROUGH
+#  define VERIF_MAXLEN 7             /* thorough tier: the bound of the property statement */
+# else
+#  define VERIF_MAXLEN 5             /* quick tier */
+# endif
+#endif
+#if VERIF_MAXLEN > 7
+# error "vr_input supports lengths up to 7"
 #endif
 #define VR_MAXTOK ((VERIF_MAXLEN + 1) / 2 + 1)
 #define VR_BUF (VERIF_MAXLEN + 1)
@@ -47,7 +54,15 @@ static char *vr_input(unsigned *plen)
     n = nondet_uint();
     __CPROVER_assume(n <= VERIF_MAXLEN);
 #endif
-    s = (char *) malloc(n + 1);
+    /* The string is placed at the END of one block of VERIF_MAXLEN+1 bytes, so that its terminator is the
+     * last byte of the object: any read past the terminator is out of bounds, for every length, with a
+     * single constant-size object (one object per length makes the encoding 7 times larger).  Reads
+     * BEFORE the first character would stay inside the block; none of the scanners under test moves
+     * backwards, and the bytes before the string are left uninitialised (arbitrary). */
+    s = (char *) __CPROVER_allocate(VERIF_MAXLEN + 1, 0) + (VERIF_MAXLEN - n);
+    /* ghost indices are arbitrary in every B harness (plain cbmc zero-initialises globals) */
+    vg_k = nondet_size_t();
+    vg_k2 = nondet_size_t();
     for (i = 0; i < n; i++) {
         unsigned char k = nondet_uchar();
         __CPROVER_assume(k < 7);
